@@ -90,6 +90,9 @@ def instances(tier, rng):
     """returns (rc_groups, enum_cases); rc_groups = list of (groupkey, [Case]) with homogeneous (function, type) groups"""
     B = 40 if tier == "quick" else 130
     nalt = 1 if tier == "quick" else 2
+    # sizes beyond the box: the reduction kernels unroll 4 and 8 vectors deep, so the widest loops only exist above 8 * 16 (float, AVX-512)
+    # resp. 8 * 8 (double) elements -- a seeded slip in the 8th block of the AVX-512 norm kernel was invisible for n <= 40
+    BIG = [65, 66, 129, 131, 150] if tier == "quick" else [131, 150, 193, 257, 260]
     groups = []
     alts = ["map", "add", "sub", "view", "fview"]
     for fn in ("sum", "product", "min", "max", "norm", "inner"):
@@ -102,7 +105,7 @@ def instances(tier, rng):
             rng.shuffle(order)
             off = rng.randrange(5)
             cs = []
-            for n in range(1, B + 1):
+            for n in list(range(1, B + 1)) + BIG:
                 cs.append(red_case(fn, t, n, "tensor"))
                 for a in range(nalt):
                     cs.append(red_case(fn, t, n, order[(n + off + 2 * a) % 5]))
@@ -111,7 +114,7 @@ def instances(tier, rng):
         for t in TYPES:
             off = rng.randrange(2)
             cs = []
-            for n in range(1, B + 1):
+            for n in list(range(1, B + 1)) + BIG:
                 cs.append(red_case(fn, t, n, "tensor"))
                 if (n + off) % 2 == 0 or tier == "thorough":
                     cs.append(red_case(fn, t, n, "map"))
